@@ -38,7 +38,10 @@ SPEC = dict(
          "fields of everything reachable and prints the real use_count() of every tracked object; the Lean driver "
          "replays the trace on RC.step and must agree at every checkpoint (certificate mode). 'W <kind> <seed> <n>' = "
          "a whole API workload (arith expand calculus parse print matrix poly sets ntheory series solve eval "
-         "serialize) repeated until steady state; output = heap growth of the last repetition. distinct = distinct op "
+         "serialize, dense = rectangular and densesq = square small matrices with leading zero columns / zero rows / "
+         "repeated rows / all zero through rref, the pivoted and fraction-free eliminations, LU, inverses, solves and "
+         "aliasing calls) repeated until steady state; output = heap growth of the last repetition; a failed internal "
+         "assertion inside a workload is FAIL:assert. distinct = distinct op "
          "lines; non-trivial = every line (each performs >= 3 library calls); tags: trace-short/medium/long, "
          "trace-<boundary>, workload-<kind>. In the thorough tier the same lines are executed again by the "
          "ASan+UBSan+LeakSanitizer build (any report aborts = FAIL:crash).",
